@@ -40,6 +40,7 @@ EXPLANATION = (
     "AccessControl before create_server outside any try. (I4/I5) wiring and key fidelity by "
     "def-use. ipaddress arithmetic is trusted. "
     "(I6) = C04.M3: the chain sees the transport's own peer address, unaltered."
+    ' (I7) carrier rule: no method of ServerConfig stores into access_control_* anything but the field itself or a type conversion of it (in-place mutators count). (I8) AccessControlConfig defines no __len__/__bool__ while start_server tests it for truthiness; I3 knows the `is None` / `is not None` forms.'
 )
 
 MW = "server.middleware"
@@ -309,8 +310,23 @@ def rule_i3(chk: Check) -> None:
     if ok2:
         c = ctor[0]
         in_try = any(lab == "exc" and g2.nodes[b].kind == "handler" for b, lab in g2.succ[c.id])
-        tests = [n for n in g2.nodes if n.kind == "test" and dotted(n.ast) == "access_control_config"]
-        blocked = {(t.id, b, lab) for t in tests for b, lab in g2.succ[t.id] if lab == "F"}
+        # `if cfg:` / `if cfg is not None:` / `if cfg is None:` - the edge that means "no configuration given"
+        tests, blocked = [], set()
+        for n in g2.nodes:
+            if n.kind != "test" or n.ast is None:
+                continue
+            a, absent = n.ast, "F"
+            while isinstance(a, ast.UnaryOp) and isinstance(a.op, ast.Not):
+                a, absent = a.operand, ("T" if absent == "F" else "F")
+            if isinstance(a, ast.Compare) and len(a.ops) == 1 and isinstance(a.comparators[0], ast.Constant) and a.comparators[0].value is None and dotted(a.left) == "access_control_config":
+                if isinstance(a.ops[0], ast.Is):
+                    absent = "T" if absent == "F" else "F"
+                elif not isinstance(a.ops[0], ast.IsNot):
+                    continue
+            elif dotted(a) != "access_control_config":
+                continue
+            tests.append(n)
+            blocked |= {(n.id, b, lab) for b, lab in g2.succ[n.id] if lab == absent}
         par = g2.reach([g2.entry.id], blocked_nodes={c.id}, blocked_edges=blocked, follow=normal_only)
         late = any(s.id in par for s in srv)
         ok2 = not in_try and not late and bool(tests)
@@ -408,5 +424,9 @@ def run(chk: Check) -> None:
     from .common import reuse
 
     reuse(chk, rule_m3, "I6", "the chain is consulted with the transport's own peer address (peer_name <- transport.get_extra_info('peername'), passed on unaltered, also through the PyOpenSSL wrapper) (= C04.M3)", ("M3",), server_machine(chk.proj))
+    from .common import config_fields_carrier, config_presence_tests
+
+    config_fields_carrier(chk, "I7", ("access_control_",), "allow / deny lists and default policy", "an entry that cannot be interpreted no longer prevents start-up, and a list emptied by dropping such entries means 'no allow list': the default policy admits every address")
+    config_presence_tests(chk, "I8", ("AccessControlConfig",))
     chk.trusted = ["CPython ast parser", "engine CFG / abstract evaluator", "ipaddress: ip_address/ip_network parsing and `in` containment"]
     chk.assumptions = ["an empty list and an absent list both mean 'no entries' (AccessControl treats them alike)"]
